@@ -157,6 +157,22 @@ func NewBalDriver(mode string) *BalDriver {
 			balOp{kind: "balEpoch", signer: "S"}, balOp{kind: "balEpoch", signer: "C"},
 			// a direct, Alphabet-signed call that runs ahead of Netmap's counter
 			balOp{kind: "balEpochAhead", signer: "C"})
+	case "C01e":
+		// accounts whose record is deleted when they are emptied and created again later - by a mint, a transfer, or
+		// the release of a lock -, two such owners served by one tick; a small alphabet, so that the search goes deep
+		for _, to := range []string{"A", "B"} {
+			add(balOp{kind: "mint", to: to, amt: bigS("5"), signer: "C"},
+				balOp{kind: "lock", from: to, to: "Lnext", amt: bigS("5"), until: 1, signer: "C"},
+				balOp{kind: "burn", from: to, amt: bigS("5"), signer: "C"})
+		}
+		add(balOp{kind: "mint", to: "A", amt: bigS("3"), signer: "C"},
+			balOp{kind: "lock", from: "A", to: "Lnext", amt: bigS("3"), until: 2, signer: "C"},
+			balOp{kind: "transfer", from: "A", to: "B", amt: bigS("5"), signer: "from"},
+			balOp{kind: "transfer", from: "B", to: "A", amt: bigS("5"), signer: "from"},
+			balOp{kind: "transferX", from: "A", to: "B", amt: bigS("5"), signer: "C"},
+			balOp{kind: "burn", from: "L1", amt: bigS("5"), signer: "C"},
+			balOp{kind: "tick", signer: "C", de: 1},
+			balOp{kind: "balEpochAhead", signer: "C"})
 	case "C02":
 		for _, to := range []string{"A", "B"} {
 			add(balOp{kind: "mint", to: to, amt: bigS("5"), signer: "C"})
